@@ -25,7 +25,9 @@ def scenario(pos, kind, T, with_auth=None):
         ops.append(("auth", "P" if with_auth == "plain" else "L", b"user", b"secret"))
     seq += ["mail", "rcpt0", "rcpt1", "data", "eod", "noop", "quit"]
     ops += [("send", b"a@x.org", [b"b@y.org", b"c@z.org"], b"hello\r\n"), ("noop",), ("quit",)]
-    part = {"silent": b"", "partial": None, "firstline": b"250-first line\r\n"}[kind]
+    # lineplus: one segment carries a complete line AND the first octets of the next one, then silence (a non-empty read buffer is not a
+    # complete line)
+    part = {"silent": b"", "partial": None, "firstline": b"250-first line\r\n", "lineplus": b"250-first line\r\n250-sec"}[kind]
     script = []
     for p in seq:
         if p == pos:
@@ -70,8 +72,8 @@ def run(ctx):
     scs = []
     for T in Ts:
         for pos in POSS:
-            for kind in ("silent", "partial", "firstline"):
-                if kind == "firstline" and pos in ("data",):
+            for kind in ("silent", "partial", "firstline", "lineplus"):
+                if kind in ("firstline", "lineplus") and pos in ("data",):
                     continue
                 scs.append(scenario(pos, kind, T))
         for wa, poss in (("plain", ["auth"]), ("login", ["auth1", "auth2", "auth"])):
